@@ -105,6 +105,8 @@ pub trait Subj: WriterTo + ReaderFrom + PartialEq + Clone + FillUniform + Sized 
     fn shrink(&mut self, _by: usize) -> bool {
         false
     }
+    /// gives the scalar metadata the stream carries (secret degrees, Galois element) other values, on a receiver
+    fn scramble_meta(&mut self) {}
 }
 
 fn sum(v: &[i64]) -> i64 {
@@ -293,6 +295,22 @@ impl Subj for GGSW<Vec<u8>> {
 }
 
 macro_rules! gglwe_like {
+    ($ty:ty, $name:expr, |$p:ident| $mk:expr, |$k:ident| $scr:expr) => {
+        impl Subj for $ty {
+            const NAME: &'static str = $name;
+            fn mk($p: &P) -> Self {
+                $mk
+            }
+            fn infos(&self) -> Vec<u64> {
+                let _ = (self.n(), self.size(), self.rank_in(), self.rank_out(), self.dnum(), self.dsize());
+                vec![]
+            }
+            fn scramble_meta(&mut self) {
+                let $k = self;
+                $scr
+            }
+        }
+    };
     ($ty:ty, $name:expr, |$p:ident| $mk:expr) => {
         impl Subj for $ty {
             const NAME: &'static str = $name;
@@ -315,6 +333,10 @@ gglwe_like!(GLWESwitchingKey<Vec<u8>>, "GLWESwitchingKey", |p| {
     *k.input_degree() = Degree(p.n().0);
     *k.output_degree() = Degree(2 * p.n().0 + 1);
     k
+}, |k| {
+    use poulpy_core::layouts::GLWESwitchingKeyDegreesMut;
+    *k.input_degree() = Degree(7);
+    *k.output_degree() = Degree(9);
 });
 // (automorphism keys carry a Galois element: a negative odd value derived from the parameters, so that its transport is observable)
 gglwe_like!(GLWEAutomorphismKey<Vec<u8>>, "GLWEAutomorphismKey", |p| {
@@ -322,6 +344,9 @@ gglwe_like!(GLWEAutomorphismKey<Vec<u8>>, "GLWEAutomorphismKey", |p| {
     let mut k = GLWEAutomorphismKey::alloc(p.n(), p.b(), p.k(), Rank(p.rank as u32), Dnum(p.dnum as u32), Dsize(p.dsize as u32));
     k.set_p(-(2 * (p.n_lwe as i64 + p.krem as i64) + 1));
     k
+}, |k| {
+    use poulpy_core::layouts::SetGaloisElement;
+    k.set_p(3);
 });
 gglwe_like!(GLWETensorKey<Vec<u8>>, "GLWETensorKey", |p| GLWETensorKey::alloc(p.n(), p.b(), p.k(), Rank(p.rank as u32), Dnum(p.dnum as u32), Dsize(p.dsize as u32)));
 gglwe_like!(GGLWEToGGSWKey<Vec<u8>>, "GGLWEToGGSWKey", |p| GGLWEToGGSWKey::alloc(p.n(), p.b(), p.k(), Rank(p.rank as u32), Dnum(p.dnum as u32), Dsize(p.dsize as u32)));
@@ -332,6 +357,10 @@ gglwe_like!(GLWEToLWEKey<Vec<u8>>, "GLWEToLWEKey", |p| {
     *k.input_degree() = Degree(p.n().0);
     *k.output_degree() = Degree(2 * p.n().0 + 1);
     k
+}, |k| {
+    use poulpy_core::layouts::GLWESwitchingKeyDegreesMut;
+    *k.input_degree() = Degree(7);
+    *k.output_degree() = Degree(9);
 });
 gglwe_like!(LWEToGLWEKey<Vec<u8>>, "LWEToGLWEKey", |p| {
     // (distinct non-zero secret degrees, so that their transport is observable)
@@ -340,6 +369,10 @@ gglwe_like!(LWEToGLWEKey<Vec<u8>>, "LWEToGLWEKey", |p| {
     *k.input_degree() = Degree(p.n().0);
     *k.output_degree() = Degree(2 * p.n().0 + 1);
     k
+}, |k| {
+    use poulpy_core::layouts::GLWESwitchingKeyDegreesMut;
+    *k.input_degree() = Degree(7);
+    *k.output_degree() = Degree(9);
 });
 gglwe_like!(LWESwitchingKey<Vec<u8>>, "LWESwitchingKey", |p| {
     // (distinct non-zero secret degrees, so that their transport is observable)
@@ -348,6 +381,10 @@ gglwe_like!(LWESwitchingKey<Vec<u8>>, "LWESwitchingKey", |p| {
     *k.input_degree() = Degree(p.n().0);
     *k.output_degree() = Degree(2 * p.n().0 + 1);
     k
+}, |k| {
+    use poulpy_core::layouts::GLWESwitchingKeyDegreesMut;
+    *k.input_degree() = Degree(7);
+    *k.output_degree() = Degree(9);
 });
 gglwe_like!(GGLWECompressed<Vec<u8>>, "GGLWECompressed", |p| GGLWECompressed::alloc(p.n(), p.b(), p.k(), Rank(p.rank as u32), Rank(p.rank_out as u32), Dnum(p.dnum as u32), Dsize(p.dsize as u32)));
 gglwe_like!(GLWESwitchingKeyCompressed<Vec<u8>>, "GLWESwitchingKeyCompressed", |p| {
@@ -357,12 +394,19 @@ gglwe_like!(GLWESwitchingKeyCompressed<Vec<u8>>, "GLWESwitchingKeyCompressed", |
     *k.input_degree() = Degree(p.n().0);
     *k.output_degree() = Degree(2 * p.n().0 + 1);
     k
+}, |k| {
+    use poulpy_core::layouts::GLWESwitchingKeyDegreesMut;
+    *k.input_degree() = Degree(7);
+    *k.output_degree() = Degree(9);
 });
 gglwe_like!(GLWEAutomorphismKeyCompressed<Vec<u8>>, "GLWEAutomorphismKeyCompressed", |p| {
     use poulpy_core::layouts::SetGaloisElement;
     let mut k = GLWEAutomorphismKeyCompressed::alloc(p.n(), p.b(), p.k(), Rank(p.rank as u32), Dnum(p.dnum as u32), Dsize(p.dsize as u32));
     k.set_p(-(2 * (p.n_lwe as i64 + p.krem as i64) + 1));
     k
+}, |k| {
+    use poulpy_core::layouts::SetGaloisElement;
+    k.set_p(3);
 });
 gglwe_like!(GLWETensorKeyCompressed<Vec<u8>>, "GLWETensorKeyCompressed", |p| GLWETensorKeyCompressed::alloc(p.n(), p.b(), p.k(), Rank(p.rank as u32), Dnum(p.dnum as u32), Dsize(p.dsize as u32)));
 gglwe_like!(GGLWEToGGSWKeyCompressed<Vec<u8>>, "GGLWEToGGSWKeyCompressed", |p| GGLWEToGGSWKeyCompressed::alloc(p.n(), p.b(), p.k(), Rank(p.rank as u32), Dnum(p.dnum as u32), Dsize(p.dsize as u32)));
@@ -550,6 +594,10 @@ fn run_subject<T: Subj>(c: &Case) -> Verdict {
     }
     let mut receiver = T::mk(&rp);
     receiver.fill_uniform(50, &mut src);
+    // half of the cases: the receiver's scalar metadata (secret degrees, Galois element) differs from the stream's
+    if (c.seed >> 20) & 1 == 1 {
+        receiver.scramble_meta();
+    }
     let mut fault_class = apply_fault(&mut bytes, c.fault);
     if let Some(r) = &c.raw {
         bytes = r.clone();
